@@ -179,6 +179,7 @@ let parse_prog (text : string) : pinfo =
             let u = (match mode_of tok j' with USync -> UAwait | u -> u) in      (* .sync() does not exist on the boxed future of after: the harness awaits *)
             [OFuture ([PAwait (nat_of_int e); PTouch], u)]
           | 'U' -> let (q, _) = num tok 1 in obj q; let e = !nev in incr nev; susp := e :: !susp; last_susp := Some e; [OSuspend (nat_of_int e, UAwait)]
+          | 'R' when String.length tok > 1 -> raise (Unsupported "a resumer handed to another caller (R<q>)")
           | 'R' | 'r' -> (match !last_susp with Some e -> last_susp := None; [OFire (nat_of_int e)] | None -> [])
           | 'E' -> let (e, _) = num tok 1 in [OFire (nat_of_int e)]
           | 'V' -> []
